@@ -1,21 +1,35 @@
 /-
 Source tie (DESIGN §14) for C11 — HTMLDocument builds one head/body and hoists every dependency into head.  The Lean
-functions regenerated from the *text* of `HTMLDocument._gen_html_tag_tree`, `HTMLDocument._hoist_head_content`,
-`TagAttrDict.__init__`, `Tag.insert / extend / append` (htmltools/_core.py; harness/pytr_c11.py) compute what the model
-(Model/Document.lean: `genTree`, `hoist`, …) computes.
+functions regenerated from the *text* of `HTMLDocument._gen_html_tag_tree`, `_hoist_head_content`, `render`, `__init__`,
+`append`, `Tag.render`, `Tag.insert / extend / append`, `TagAttrDict.__init__` (htmltools/_core.py; harness/pytr_c11.py)
+compute what the model (Model/Document.lean: `genTree`, `hoist`, `genHtmlTagTree`, `docRender`, `docInit`, `docAppend`)
+computes, error for error.
+
+  src_TagAttrDict_initC11                 TagAttrDict(*dicts, **kw)                = attrsUpdate        (all inputs)
+  src_Tag_insert/extend/appendC11_partial Tag.insert / extend / append             on already-normalised children
+  src_gen_html_tag_treeC11                _gen_html_tag_tree up to the call of _hoist_head_content = genTree   (all contents)
+  src_hoist_head_contentC11               _hoist_head_content                      = hoist              (all tag trees)
+  src_gen_html_tag_tree_fullC11 / _nowC11 the two composed, callee ties discharged = genHtmlTagTree
+  src_Tag_renderC11, src_HTMLDocument_renderC11, …_render_fullC11 / _nowC11        = docRender
+  src_HTMLDocument_initC11_partial / appendC11_partial                             = docInit / docAppend on normalised children
 
 Conventions
 * Trees are embedded by `embT tv` (Lemmas/SrcC10.lean), the embedding of the `tagify` / `get_dependencies` ties, which
-  these functions call.
+  these functions call; the renderer tie is restated on it in Props/SrcRenderC11.lean.
 * The ties of the callees of other areas are *hypotheses* stated on the values in play (`UpdateTieC11` = `src_update`,
-  `hT` = `src_tagify_tag`, …); the `_now` corollaries at the end discharge them from those theorems.
+  `hT` = `src_tagify_tag`, `hD` = `src_get_dependencies_tag`, …); the `_full` / `_now` corollaries discharge them.
 * A call of another big regenerated function in tail position (`_hoist_head_content` at the end of `_gen_html_tag_tree`)
   is abstracted as a continuation `K` with `hK : ∀ v, callee … v … = K v` — the statement is about what is handed to it.
   (Without this the kernel compares a `match` of the model with the unfolded callee: minutes instead of seconds.)
-* Every theorem takes `<fn>_available = true`; when the function has left the fragment the first alternative closes the
-  goal and the rest of the proof (in `all_goals (…)`) does not run.
-* `Tag(…)` is the primitive `mkTagC11`, `d.as_html_tags(…)` the parameter `G.asHtmlTagsC11` (Py/PrimC11.lean): neither
-  `Tag.__init__` nor `HTMLDependency.as_html_tags` is translated in this area.
+* Every theorem that unfolds a regenerated function takes `<fn>_available = true`; when the function has left the fragment
+  the first alternative closes the goal and the rest of the proof (in `all_goals (…)`) does not run.
+* What is **not** translated in this area and therefore *assumed* (validated against the interpreter by the `srcc11` op on
+  every run, Py/PrimC11.lean): `Tag(…)` is the primitive `mkTagC11` (children must already be normalised; the attributes go
+  through the translated `TagAttrDict.__init__` / `update`), `d.as_html_tags(…)` is a parameter (`Globals.asHtmlTagsC11`,
+  hypothesis `hA`: it answers what the model's `depTags` says), `copy(x)` is the value itself (Py/PrimC10.lean).
+* Guard of the statements about keyword arguments: no key collides with a parameter name of `Tag.__init__`
+  (`kwAvoidsC11 reservedKw kw`; the model does not describe the resulting TypeError — harness/props/c11.py does not
+  generate such names either).
 -/
 import HtmlVerif.Generated.Src
 import HtmlVerif.Lemmas.SrcC11
